@@ -224,7 +224,7 @@ func execC06(w *c06W, x *Exec) *Outcome {
 				q := &gripql.GraphQuery{}
 				protojson.Unmarshal([]byte(w.Request), q)
 				what = "Submit " + stmtNamesSafe(q.Query)
-				job, err := srv.Srv.Submit(ctx, q)
+				job, err := srv.submitUnary(q)
 				handlerErr = err
 				if err == nil && job != nil {
 					for i := 0; i < 200; i++ {
@@ -241,7 +241,7 @@ func execC06(w *c06W, x *Exec) *Outcome {
 				protojson.Unmarshal([]byte(w.Request), q)
 				what = "ResumeJob " + stmtNamesSafe(q.Query)
 				if q.SrcId == "@job" {
-					job, err := srv.Srv.Submit(ctx, &gripql.GraphQuery{Graph: "g", Query: gen.StmtsOf(gen.V())})
+					job, err := srv.submitUnary(&gripql.GraphQuery{Graph: "g", Query: gen.StmtsOf(gen.V())})
 					if err == nil {
 						for i := 0; i < 200; i++ {
 							st, err := srv.Srv.GetJob(ctx, job)
